@@ -7,8 +7,17 @@ package lisperror
 //@   panics never
 //@   pure
 
+// the object an error carries to a catch clause: the wrapped value of a LispError, else the error itself
+//@ spec thrownOf(e types.MalType) types.MalType = ite(is(e, LispError), e.(LispError).err, e)
+
 //@ func NewLispError(err, ast) (r)
 //@   panics never
 //@   pure
+//@   ensures r.err == thrownOf(err)
+
+//@ func (LispError).ErrorValue(e) (r)
+//@   panics never
+//@   pure
+//@   ensures r == e.err
 
 //@ invariant *LispError(p) = p != nil
